@@ -369,6 +369,10 @@ impl BacktestMarketData for SimMarketData {
 
 #[derive(Clone, Debug, Serialize, Deserialize)]
 pub struct BtG {
+    /// this backtest carries the same id label as backtest `same_id_as % (own index)` (ids are
+    /// labels chosen by the caller; nothing says they are unique)
+    #[serde(default)]
+    pub same_id_as: Option<usize>,
     pub modulus: u64,
     pub residue: u64,
     pub phase: u64,
@@ -394,6 +398,13 @@ pub struct ScenarioG {
 }
 
 pub struct SimG;
+
+fn bt_label(sc: &ScenarioG, j: usize) -> String {
+    match sc.backtests.get(j).and_then(|b| b.same_id_as).filter(|_| j > 0) {
+        Some(k) => format!("bt{}", k % j),
+        None => format!("bt{j}"),
+    }
+}
 
 #[derive(Debug, Clone, PartialEq)]
 struct BtResult {
@@ -521,7 +532,7 @@ where
         .map(|(pos, j)| {
             let b = &sc.backtests[*j];
             BacktestArgsDynamic {
-                id: SmolStr::new(format!("bt{j}")),
+                id: SmolStr::new(bt_label(sc, *j)),
                 risk_free_return: Decimal::new(5, 2),
                 strategy: BtStrategy {
                     bt: *j,
@@ -621,6 +632,7 @@ impl Sim for SimG {
                 let modulus = if in_memory { u64::MAX / 2 } else { 1 + rng.below(6) };
                 let plen = 1 + rng.usize(5);
                 BtG {
+                    same_id_as: if rng.chance(1, 10) { Some(rng.usize(8)) } else { None },
                     modulus,
                     residue: if in_memory { 1 } else { rng.below(modulus) },
                     phase: rng.below(2),
@@ -689,7 +701,7 @@ impl Sim for SimG {
             for (j, r) in conc.iter().enumerate() {
                 log.sig(&format!("bt{}:{}", j, r.rec.fills.iter().map(Vec::len).sum::<usize>()));
                 log.line(|| format!("concurrent bt{j}: seen {} events, fills {:?}, positions {:?}, balances {:?}, summary pnl {:?}", r.rec.global_seen.len(), r.rec.fills.iter().map(Vec::len).collect::<Vec<_>>(), r.rec.positions, r.rec.balances, r.summary_pnl));
-                if r.id != format!("bt{j}") {
+                if r.id != bt_label(sc, j) {
                     fail!('run, "G2_summary_of_own_engine", j, "summary at position {j} carries id {}", r.id);
                 }
                 // G1: the whole dataset, exactly once, in order, before shutdown
